@@ -23,6 +23,15 @@ CLAIMED = {
             "Lineage partition recomputed in TLA+ (weak components) on every recorded real post / undo / redo state."),
     "C06": ("model_checking", "TLC exhaustive model check + catalogue replay + TLC trace evaluation of LookupOK and of the recorded query answers",
             "Lookups (as lists, duplicates visible), get_track_neighbors / has_track_id_at_time for every id and time, next ids; reference answers are graph scans computed in TLA+."),
+    "C02": ("model_checking", "TLC model check of the two-stack history against a ghost linear timeline (MCHist.tla); all call sequences up to a length bound "
+            "replayed into the real code; TLC (TraceHist.tla) rebuilds the timeline from the recorded real states and checks every step, plus lockstep refinement",
+            "All sequences over {6-7 edits incl. nesting/forced ones, undo, redo} up to the length bound exhaustively, three alphabets; longer seeded random sessions."),
+    "C07": ("model_checking", "TLC model check with segmentation + catalogue replay + TLC trace evaluation of SegOK, the painted-array clauses, the pixel query and bit-exact undo on real arrays",
+            "Strokes with new / existing / background value over none, part or all of one or several nodes, all pixel subsets of a frame, 2D+t and 3D+t; whole array projected."),
+    "C08": ("model_checking", "TLC model check with segmentation + catalogue replay + TLC recomputes area and scaled centroid from the recorded real array as exact rationals",
+            "Area = count x voxel and centroid x scale recomputed IN TLA+ from the real label array and compared with the stored attribute values (isotropic, anisotropic, no scale)."),
+    "C09": ("model_checking", "TLC model check with segmentation + catalogue replay + TLC recomputes |A and B| / |A or B| from the recorded real array as exact rationals",
+            "IoU recomputed in TLA+ for every edge (incl. frame-skipping) after every call, undo, redo; incremental path."),
     "C11": ("model_checking", "TLC exhaustive model check + catalogue replay + TLC trace evaluation of FullEq(pre, post) and empty emissions on refused calls",
             "The whole alphabet (enabled or not) is fired from every catalogue state, so every refused (state, call) pair of the universe is covered."),
     "C20": ("model_checking", "TLC exhaustive model check + catalogue replay + TLC trace evaluation of the recorded refresh emissions",
@@ -30,9 +39,9 @@ CLAIMED = {
 }
 
 NOT_YET = {
-    "C02": "history/timeline trace specification not built yet in this round (planned: TraceSession.tla)",
-    "C07": "segmentation suites not built yet", "C08": "segmentation suites not built yet",
-    "C09": "segmentation suites not built yet", "C10": "feature-switching suite not built yet",
+    "_C02": "history/timeline trace specification not built yet in this round (planned: TraceSession.tla)",
+    "_C07": "segmentation suites not built yet", "C08": "segmentation suites not built yet",
+    "_C09": "segmentation suites not built yet", "C10": "feature-switching suite not built yet",
     "C12": "import pipeline specification not built yet", "C13": "relabel specification not built yet",
     "C14": "round-trip specification not built yet", "C15": "subset-export specification not built yet",
     "C16": "read-only specification not built yet", "C17": "name-map specification not built yet",
@@ -42,7 +51,7 @@ NOT_YET = {
 
 def main():
     checks = []
-    for pid, (cat, tech, text) in CLAIMED.items():
+    for pid, (cat, tech, text) in sorted(CLAIMED.items()):
         checks.append({
             "property_id": pid,
             "quick_cmd": f"./check {pid} --tier quick",
